@@ -19,6 +19,7 @@ import (
 	"runtime"
 	"strings"
 	"sync"
+	"sync/atomic"
 	"testing"
 	"time"
 
@@ -49,12 +50,14 @@ type c10Spec struct {
 	Store    bool     `json:"store"`
 	Sessions int      `json:"sessions"`
 	Reqs     []c10Req `json:"reqs"`
-	BgNotes  []int    `json:"bg_notes_ms"` // instants at which every session gets an out-of-band notification
+	BgNotes  []int    `json:"bg_notes_ms"`        // instants at which every session gets an out-of-band notification
+	CaseIDs  bool     `json:"case_ids,omitempty"` // ServerOptions.GetSessionID issues ids that differ from one another only in letter case
 }
 
 func genC10(r *vh.Rand) c10Spec {
 	s := c10Spec{Mode: r.Choose("stateful-sse", "stateful-sse", "stateful-json", "stateless-sse", "stateless-json"), Sessions: r.Range(1, 5)}
 	s.Store = strings.HasPrefix(s.Mode, "stateful") && r.Bool()
+	s.CaseIDs = strings.HasPrefix(s.Mode, "stateful") && r.Chance(1, 5)
 	for i := 0; i < s.Sessions; i++ {
 		for j, n := 0, r.Range(1, 5); j < n; j++ {
 			q := c10Req{Sess: i, ID: j + 1, StartMs: r.Intn(6), Pre: r.Intn(4), GapMs: r.Intn(4), CutMs: -1}
@@ -168,10 +171,23 @@ func runC10(c *vh.Case, spec c10Spec) {
 		log.Add("emit", "tag", t.String())
 		return t.enc()
 	}
-	server := mcp.NewServer(&mcp.Implementation{Name: "s", Version: "1"}, &mcp.ServerOptions{
+	sopts := &mcp.ServerOptions{
 		SubscribeHandler:   func(context.Context, *mcp.SubscribeRequest) error { return nil },
 		UnsubscribeHandler: func(context.Context, *mcp.UnsubscribeRequest) error { return nil },
-	})
+	}
+	if spec.CaseIDs {
+		// an application-supplied id scheme whose ids are distinct but equal up to letter case
+		var idn atomic.Int64
+		sopts.GetSessionID = func() string {
+			n := idn.Add(1)
+			base := fmt.Sprintf("SessionKey%c", 'a'+rune((n-1)/2))
+			if n%2 == 0 {
+				return strings.ToUpper(base)
+			}
+			return strings.ToLower(base)
+		}
+	}
+	server := mcp.NewServer(&mcp.Implementation{Name: "s", Version: "1"}, sopts)
 	server.AddResource(&mcp.Resource{URI: "file:///shared", Name: "shared"}, func(context.Context, *mcp.ReadResourceRequest) (*mcp.ReadResourceResult, error) {
 		return &mcp.ReadResourceResult{}, nil
 	})
